@@ -10,6 +10,7 @@ import MRB.Seq.Spec
 import MRB.Traits
 import MRB.Async
 import MRB.Vmem
+import MRB.Conc.Replay
 
 namespace MRB.Driver
 open MRB
@@ -212,12 +213,43 @@ def handle (c : Option Case) (line : String) : Option Case × String :=
     | none, _ => (c, "no-case")
     | _, none => (c, "bad-op")
 
-partial def loop (h : IO.FS.Stream) (out : IO.FS.Stream) (c : Option Case) : IO Unit := do
+partial def loop (h : IO.FS.Stream) (out : IO.FS.Stream) (c : Option Case) (cs : Option Conc.St := none) : IO Unit := do
   let line ← h.getLine
   if line.isEmpty then return ()
-  let (c', ans) := handle c line
-  out.putStrLn ans
-  out.flush
-  loop h out c'
+  let ws := (line.trimAscii.toString.splitOn " ").filter (· ≠ "")
+  -- lines of a recorded concurrent execution (`cinit L hasW`, then `cld` / `cst` / `cac` / `cq`) go to the concurrent machine
+  match ws with
+  | ["cinit", l, w] =>
+    match l.toNat?, w.toNat? with
+    | some l, some w =>
+      out.putStrLn (if l = 0 then "fail zero-length" else "ok")
+      out.flush
+      loop h out c (if l = 0 then none else some (Conc.init l (w != 0)))
+    | _, _ =>
+      out.putStrLn "fail bad-line"
+      out.flush
+      loop h out c cs
+  | x :: _ =>
+    if x == "cld" || x == "cst" || x == "cac" || x == "cq" then
+      match cs with
+      | some s =>
+        let (s1, ans) := Conc.replayLine s ws
+        out.putStrLn ans
+        out.flush
+        loop h out c (some s1)
+      | none =>
+        out.putStrLn "fail no-cinit"
+        out.flush
+        loop h out c cs
+    else
+      let (c', ans) := handle c line
+      out.putStrLn ans
+      out.flush
+      loop h out c' cs
+  | [] =>
+    let (c', ans) := handle c line
+    out.putStrLn ans
+    out.flush
+    loop h out c' cs
 
 end MRB.Driver
